@@ -1,6 +1,6 @@
 (* C12  Outgoing notification queue is a fair priority queue.
    Statements only; proofs live in NQueue/NQueueProofs.v. *)
-From BT Require Import Base.ListX Base.Bits2 NQueue.NQueueModel NQueue.NQueueSpec NQueue.NQueueProofs.
+From BT Require Import Base.ListX Base.Bits2 NQueue.NQueueModel NQueue.NQueueSpec NQueue.NQueueProofs NQueue.NQueueDirect.
 
 (* For every priority partition whose levels hold at least one characteristic (levels of one
    characteristic are the specialised implementation, all others the packed one) and every
@@ -67,3 +67,98 @@ From BT Require gen.GenNQueue.
 Example C12_constants_are_the_codes :
   GenNQueue.bits_per_characteristc = 2%N /\ GenNQueue.notification_bit = kbit KNotif /\ GenNQueue.indication_bit = kbit KInd.
 Proof. repeat split; reflexivity. Qed.
+
+(* ------------------------------------------------------------------------------------------
+   Monitor-independent statements, directly over the model (NQueue/NQueueDirect.v).
+   pending s i k = bit k of global characteristic i in the packed state s; total = number of
+   characteristics; queue_op k i = QueueN i / QueueI i. *)
+
+(* at most one indication outstanding, state level: while outstanding_confirmation_index_ is set,
+   dequeue never answers an indication (any state) *)
+Theorem C12_outstanding_blocks_indication : forall (s : state) (i j : nat),
+  outstanding s = Some i -> snd (step s Dequeue) <> OEntry (Some (KInd, j)).
+Proof. exact outstanding_blocks_indication. Qed.
+Print Assumptions C12_outstanding_blocks_indication.
+
+(* trace level: after a dequeue answered an indication, no dequeue of any continuation without
+   indication_confirmed / clear answers another indication *)
+Theorem C12_at_most_one_indication_outstanding : forall (s : state) (ops : list op) (i j : nat),
+  snd (step s Dequeue) = OEntry (Some (KInd, i)) ->
+  forallb (fun o => negb (ends_outstanding o)) ops = true ->
+  ~ In (Dequeue, OEntry (Some (KInd, j))) (run (fst (step s Dequeue)) ops).
+Proof. exact at_most_one_indication_outstanding. Qed.
+Print Assumptions C12_at_most_one_indication_outstanding.
+
+(* the same about a single trace of the model from any start state (e.g. init sizes) *)
+Theorem C12_trace_at_most_one_indication_outstanding :
+  forall (s0 : state) (ops1 ops2 : list op) (tr1 tr2 : list (op * out)) (i j : nat),
+    run s0 (ops1 ++ Dequeue :: ops2) = tr1 ++ (Dequeue, OEntry (Some (KInd, i))) :: tr2 ->
+    length tr1 = length ops1 ->
+    forallb (fun o => negb (ends_outstanding o)) ops2 = true ->
+    ~ In (Dequeue, OEntry (Some (KInd, j))) tr2.
+Proof. exact trace_at_most_one_indication_outstanding. Qed.
+Print Assumptions C12_trace_at_most_one_indication_outstanding.
+
+(* no duplication: in every reachable state a dequeue answers a request that is pending, clears
+   exactly that request and changes no other pending bit *)
+Theorem C12_dequeue_answers_and_removes_exactly_one :
+  forall (sizes : list nat) (ops : list op) (s' : state) (k : kind) (i : nat),
+    wf_sizes sizes ->
+    step (final (init sizes) ops) Dequeue = (s', OEntry (Some (k, i))) ->
+    (i < total (levels (final (init sizes) ops)))%nat /\
+    pending (final (init sizes) ops) i k = true /\
+    pending s' i k = false /\
+    forall j k', (j, k') <> (i, k) -> pending s' j k' = pending (final (init sizes) ops) j k'.
+Proof. exact dequeue_answers_and_removes_exactly_one. Qed.
+Print Assumptions C12_dequeue_answers_and_removes_exactly_one.
+
+(* no loss: 'empty' is answered only when no request is eligible, and leaves the state unchanged *)
+Theorem C12_dequeue_empty_means_nothing_eligible :
+  forall (sizes : list nat) (ops : list op) (s' : state),
+    wf_sizes sizes ->
+    step (final (init sizes) ops) Dequeue = (s', OEntry None) ->
+    s' = final (init sizes) ops /\
+    forall j k, eligible (cget (levels s') j) k (is_none (outstanding s')) = false.
+Proof. exact dequeue_empty_means_nothing_eligible. Qed.
+Print Assumptions C12_dequeue_empty_means_nothing_eligible.
+
+(* set semantics: queueing a pending request answers 'already queued' and leaves the whole packed
+   state (bits, round robin pointers, outstanding indication) unchanged *)
+Theorem C12_queue_pending_is_idempotent :
+  forall (sizes : list nat) (ops : list op) (k : kind) (i : nat),
+    wf_sizes sizes ->
+    (i < total (levels (final (init sizes) ops)))%nat ->
+    pending (final (init sizes) ops) i k = true ->
+    step (final (init sizes) ops) (queue_op k i) = (final (init sizes) ops, OBool false).
+Proof. exact queue_pending_is_idempotent. Qed.
+Print Assumptions C12_queue_pending_is_idempotent.
+
+(* queueing a request that is not pending answers 'newly queued' and sets exactly that bit *)
+Theorem C12_queue_fresh_adds_exactly_one :
+  forall (sizes : list nat) (ops : list op) (k : kind) (i : nat),
+    wf_sizes sizes ->
+    (i < total (levels (final (init sizes) ops)))%nat ->
+    pending (final (init sizes) ops) i k = false ->
+    snd (step (final (init sizes) ops) (queue_op k i)) = OBool true /\
+    pending (fst (step (final (init sizes) ops) (queue_op k i))) i k = true /\
+    outstanding (fst (step (final (init sizes) ops) (queue_op k i))) = outstanding (final (init sizes) ops) /\
+    forall j k', (j, k') <> (i, k) ->
+      pending (fst (step (final (init sizes) ops) (queue_op k i))) j k' = pending (final (init sizes) ops) j k'.
+Proof. exact queue_fresh_adds_exactly_one. Qed.
+Print Assumptions C12_queue_fresh_adds_exactly_one.
+
+(* clear_indications_and_confirmations: every reachable state is reset to the initial state
+   (the model, like the code, clears notification bits as well) *)
+Theorem C12_clear_resets_to_initial_state :
+  forall (sizes : list nat) (ops : list op),
+    wf_sizes sizes -> step (final (init sizes) ops) Clear = (init sizes, OUnit).
+Proof. exact clear_resets_to_initial_state. Qed.
+Print Assumptions C12_clear_resets_to_initial_state.
+
+Theorem C12_clear_leaves_nothing_pending :
+  forall (sizes : list nat) (ops : list op) (i : nat) (k : kind),
+    wf_sizes sizes ->
+    pending (fst (step (final (init sizes) ops) Clear)) i k = false /\
+    outstanding (fst (step (final (init sizes) ops) Clear)) = None.
+Proof. exact clear_leaves_nothing_pending. Qed.
+Print Assumptions C12_clear_leaves_nothing_pending.
